@@ -19,15 +19,23 @@ Local Open Scope N_scope.
 (* the constants of the source the model relies on *)
 
 Theorem C19_filter_table_pinned :
-  Gen.filter_table_src =
-  [([114; 101], [108; 97; 109; 98; 100; 97; 32; 99; 111; 110; 102; 58; 32; 40; 99; 111; 110; 102; 44; 32; 78; 111; 110; 101; 44; 32; 78; 111; 110; 101; 41]);
-   ([114; 101; 120], [95; 114; 101; 120]);
-   ([105; 110; 116], [108; 97; 109; 98; 100; 97; 32; 99; 111; 110; 102; 58; 32; 40; 39; 45; 63; 92; 92; 100; 43; 39; 44; 32; 105; 110; 116; 44; 32; 108; 97; 109; 98; 100; 97; 32; 120; 58; 32; 115; 116; 114; 40; 105; 110; 116; 40; 120; 41; 41; 41]);
-   ([102; 108; 111; 97; 116], [108; 97; 109; 98; 100; 97; 32; 99; 111; 110; 102; 58; 32; 40; 39; 45; 63; 92; 92; 100; 43; 40; 92; 92; 46; 92; 92; 100; 43; 41; 63; 39; 44; 32; 102; 108; 111; 97; 116; 44; 32; 108; 97; 109; 98; 100; 97; 32; 120; 58; 32; 115; 116; 114; 40; 102; 108; 111; 97; 116; 40; 120; 41; 41; 41]);
-   ([112; 97; 116; 104], [108; 97; 109; 98; 100; 97; 32; 99; 111; 110; 102; 58; 32; 40; 102; 39; 46; 43; 40; 63; 61; 123; 114; 101; 46; 101; 115; 99; 97; 112; 101; 40; 99; 111; 110; 102; 41; 125; 41; 39; 32; 105; 102; 32; 99; 111; 110; 102; 32; 101; 108; 115; 101; 32; 39; 46; 43; 36; 39; 44; 32; 78; 111; 110; 101; 44; 32; 78; 111; 110; 101; 41])]
+  Gen.filter_table =
+  [([114; 101], ([], [97; 46; 98], [110; 111; 110; 101], [110; 111; 110; 101]));
+   ([105; 110; 116], ([45; 63; 92; 100; 43], [45; 63; 92; 100; 43], [105; 110; 116], [53; 124; 55; 124; 50; 124; 45; 51; 124; 49; 48]));
+   ([102; 108; 111; 97; 116], ([45; 63; 92; 100; 43; 40; 92; 46; 92; 100; 43; 41; 63], [45; 63; 92; 100; 43; 40; 92; 46; 92; 100; 43; 41; 63], [102; 108; 111; 97; 116], [53; 46; 48; 124; 55; 46; 48; 124; 50; 46; 53; 124; 45; 51; 46; 48; 124; 49; 48; 46; 48]));
+   ([112; 97; 116; 104], ([46; 43; 36], [46; 43; 40; 63; 61; 97; 92; 46; 98; 41], [110; 111; 110; 101], [110; 111; 110; 101]))]
   /\ Gen.param_token = CR /\ Gen.path_sep = SLASH.
 Proof. exact (conj filter_table_pinned tokens_pinned). Qed.
 Print Assumptions C19_filter_table_pinned.
+
+(* the same table read through the model's own functions: every row is one of
+   the model's four kinds, its converter and formatter are what f_out_of says,
+   and the formatter samples the model covers are what apply_fmt prints *)
+Theorem C19_filter_table_agrees_with_model :
+  forallb row_agrees Gen.filter_table = true /\
+  map fst Gen.filter_table = [s_re; s_int; s_float; s_path].
+Proof. exact table_agrees_with_model. Qed.
+Print Assumptions C19_filter_table_agrees_with_model.
 
 (* ------------------------------------------------------------------ *)
 (* C19_url_shape: the slice bookkeeping of Route.url (cidx / clen / end over
